@@ -57,7 +57,8 @@ type LoopCase struct {
 	Start         []SChange `json:"start,omitempty"`         // data present before the syncer starts
 	PeerAtStart   []SPeer   `json:"peer_at_start,omitempty"` // a peer snapshot already in the bucket at start-up
 	Plan          []SAct    `json:"plan"`
-	AllowF9       bool      `json:"allow_f9,omitempty"` // known-finding reproduction only
+	AllowF9       bool      `json:"allow_f9,omitempty"`     // known-finding reproduction only
+	ReceiveOnly   bool      `json:"receive_only,omitempty"` // instance runs with Options.ReceiveOnly (C03 only: nothing is uploaded)
 	ExcludedEmpty int       `json:"excluded_empty,omitempty"`
 }
 
@@ -129,7 +130,7 @@ func runLoopCase(c LoopCase, o *vcore.Obs) (*loopStats, error) {
 	conf.MemoryDownloadedSnapshots = 4
 	lc := config.LMDB{SchemaTracksChanges: c.Native}
 	h := b.Handle("a")
-	nd := NewNode("a", env, h, conf, lc, syncer.Options{})
+	nd := NewNode("a", env, h, conf, lc, syncer.Options{ReceiveOnly: c.ReceiveOnly})
 	defer nd.Forget()
 	defer nd.Stop()
 
@@ -523,6 +524,12 @@ func runLoopCase(c LoopCase, o *vcore.Obs) (*loopStats, error) {
 	}
 	st.stores = countStores()
 	st.fallbacks = fallbacks
+	if c.ReceiveOnly {
+		if st.stores != 0 {
+			return st, fmt.Errorf("receive-only instance stored %d snapshots", st.stores)
+		}
+		return st, nil // nothing is published in receive-only mode: only the C03 oracle applies
+	}
 	// C09: the newest own snapshot reflects every application commit
 	own := ""
 	for _, n := range b.Names() {
@@ -653,6 +660,7 @@ func classifyLoop(c LoopCase, st *loopStats, o *vcore.Obs) {
 	}
 	o.ClassIf(c.Native, "native")
 	o.ClassIf(!c.Native, "shadow")
+	o.ClassIf(c.ReceiveOnly, "receive-only")
 	o.ClassIf(st.lsEmptyApp > 0, "app-commit-after-empty-ls-txn")
 	o.ClassIf(st.fallbacks > 0, "trigger-point-did-not-occur-fired-at-next-yield")
 }
@@ -705,6 +713,7 @@ func genSPeer(t *rapid.T, c *LoopCase, nkeys int) []SPeer {
 func genLoopCase(t *rapid.T) LoopCase {
 	var c LoopCase
 	c.Native = rapid.Bool().Draw(t, "native")
+	c.ReceiveOnly = rapid.IntRange(0, 5).Draw(t, "receive_only") == 0
 	nkeys := rapid.IntRange(1, 3).Draw(t, "nkeys")
 	if rapid.IntRange(0, 2).Draw(t, "start?") > 0 {
 		for i := 0; i < rapid.IntRange(1, 3).Draw(t, "nstart"); i++ {
@@ -757,11 +766,12 @@ type enumLoop struct {
 	PeerNoop bool   `json:"peer_noop"` // the delivered peer snapshot changes nothing
 	// LocalFirst: another application commit precedes (at the end of the previous iteration), so that
 	// the iteration in which the commit under test falls also captures/uploads (all 12 points occur)
-	LocalFirst bool `json:"local_first"`
+	LocalFirst  bool `json:"local_first"`
+	ReceiveOnly bool `json:"receive_only,omitempty"`
 }
 
 func (e enumLoop) toCase() LoopCase {
-	c := LoopCase{Native: e.Native}
+	c := LoopCase{Native: e.Native, ReceiveOnly: e.ReceiveOnly}
 	ts := uint64(0)
 	if e.Native {
 		ts = 20
@@ -803,7 +813,7 @@ func (e enumLoop) toCase() LoopCase {
 func TestC03Enum(t *testing.T) {
 	points := loopYieldPoints[:12]
 	vcore.RunEnum(t, vcore.Config{Property: "C03", Inflight: true,
-		Rule: "fault enumeration over a fixed scenario (instance starts with two keys, a peer snapshot is merged, the application commits once, a later peer snapshot is merged, loop runs until idle): EVERY yield point (12) x kind of application change {insert, overwrite, delete, new DBI, multi-key} x {native, shadow} x {peer snapshot is a no-op, or not} x {another application commit precedes so that the iteration also captures and uploads, or not} - this covers Lightning Stream write transactions that turn out empty and ones that do not; C03 oracle after every yield, C09 oracle when idle; commits that match the listed known finding (transaction id reuse after an empty LS transaction) are deferred to the next yield and counted; " +
+		Rule: "fault enumeration over a fixed scenario (instance starts with two keys, a peer snapshot is merged, the application commits once, a later peer snapshot is merged, loop runs until idle): EVERY yield point (12) x kind of application change {insert, overwrite, delete, new DBI, multi-key} x {native, shadow} x {peer snapshot is a no-op, or not} x {another application commit precedes so that the iteration also captures and uploads, or not} - this covers Lightning Stream write transactions that turn out empty and ones that do not; plus the same commit on a receive-only instance; C03 oracle after every yield, C09 oracle when idle; commits that match the listed known finding (transaction id reuse after an empty LS transaction) are deferred to the next yield and counted; " +
 			"non-trivial = the commit fell between two LS transactions of one loop iteration"},
 		func(yield func(enumLoop) bool) {
 			for _, native := range []bool{true, false} {
@@ -815,6 +825,10 @@ func TestC03Enum(t *testing.T) {
 									return
 								}
 							}
+						}
+						// the same commit on a receive-only instance (captures, merges, never uploads)
+						if !yield(enumLoop{Native: native, Point: p, Kind: k, PeerNoop: false, LocalFirst: true, ReceiveOnly: true}) {
+							return
 						}
 					}
 				}
